@@ -97,6 +97,7 @@ class Interp:
         self.n_fresh = 0
         self.unsupported = None
         self.assumptions = []
+        self.rand_at = {}  # (where, who) -> value for every randomising node evaluated
 
     # ------------------------------------------------------------ element helpers
     def const(self, v, w):
@@ -390,6 +391,11 @@ class Interp:
 
     # ------------------------------------------------------------ randomness
     def random_value(self, t, where, who):
+        v = self._random_value(t, where, who)
+        self.rand_at[(where, who)] = v
+        return v
+
+    def _random_value(self, t, where, who):
         if self.given is not None and where in self.given:
             v = self.given[where]
             return v[who] if isinstance(v, dict) else v
@@ -410,6 +416,11 @@ class Interp:
         return tuple(flat_elems(key))
 
     def prf_value(self, key, iv, t, where, who, perm_n=None):
+        v = self._prf_value(key, iv, t, where, who, perm_n)
+        self.rand_at[(where, who)] = v
+        return v
+
+    def _prf_value(self, key, iv, t, where, who, perm_n=None):
         if self.given is not None and where in self.given:
             v = self.given[where]
             return v[who] if isinstance(v, dict) else v
